@@ -293,13 +293,15 @@ def tz_specs():
                     S("call", {"EST": ("o", 2), "EDT": ("o", 2), "GMT": ("o", 3), "BST": ("o", 3)}, ("e",)),
                     S("map", {"BRST": ("i", 10 ** 15)}),
                     # TZ strings: more valid shapes, and MALFORMED ones (tz.tzstr raises ValueError inside _build_tzaware;
-                    # month 13 passes the constructor and raises at tzname(): D-C14-tzinfos-bad-tzstring)
+                    # month 13 passes the constructor and raises at tzname(); ParserError since /repo 950345d — reverting that fix shows here)
                     S("map", {"IST": ("s", "IST-5:30"), "EST": ("s", "AEST-10AEDT,M10.1.0,M4.1.0/3"), "GMT": ("s", "GMT+3"),
                               "BST": ("s", "GMT0BST,M3.5.0/1,M10.5.0"), "AEDT": ("s", "AEST-10AEDT,M10.1.0,M4.1.0/3")}),
                     S("map", {"EST": ("s", "5"), "CET": ("s", "EST5EDT,foo"), "BRST": ("s", ""), "UTC": ("s", "EST5EDT,M13.1.0,M11.1.0"),
                               "EDT": ("s", "EST5EDT,M13.1.0,M11.1.0")}),
                     S("call", {"GMT": ("s", "EST5EDT,M3.2.0,M14.1.0")}, ("s", "not a tz string")),
-                    S("call", {"EST": ("s", "EST5EDT4,M3.2.0/2,M11.1.0/2")}, ("s", "UTC"))]
+                    S("call", {"EST": ("s", "EST5EDT4,M3.2.0/2,M11.1.0/2")}, ("s", "UTC")),
+                    # a callable that itself raises ValueError (reported as ParserError since /repo 950345d)
+                    S("call", {"EST": ("r",), "UTC": ("i", 0), "BRST": ("r",)}, ("n",)), S("call", {"GMT": ("o", 3)}, ("r",))]
     return TZ_SPECS
 
 
